@@ -131,6 +131,10 @@ func rawState(l *sqlLexer) stateFn {
 			return singleQuoteState
 		case '"':
 			return doubleQuoteState
+		case '`':
+			return backtickState
+		case '#':
+			return oneLineCommentState
 		case '$':
 			nextRune, _ := utf8.DecodeRuneInString(l.src[l.pos:])
 			if '0' <= nextRune && nextRune <= '9' {
@@ -170,6 +174,9 @@ func singleQuoteState(l *sqlLexer) stateFn {
 		l.pos += width
 
 		switch r {
+		case '\\':
+			_, width = utf8.DecodeRuneInString(l.src[l.pos:])
+			l.pos += width
 		case '\'':
 			nextRune, width := utf8.DecodeRuneInString(l.src[l.pos:])
 			if nextRune != '\'' {
@@ -194,6 +201,9 @@ func doubleQuoteState(l *sqlLexer) stateFn {
 		l.pos += width
 
 		switch r {
+		case '\\':
+			_, width = utf8.DecodeRuneInString(l.src[l.pos:])
+			l.pos += width
 		case '"':
 			nextRune, width := utf8.DecodeRuneInString(l.src[l.pos:])
 			if nextRune != '"' {
@@ -214,6 +224,31 @@ func doubleQuoteState(l *sqlLexer) stateFn {
 
 // placeholderState consumes a placeholder value. The $ must have already has
 // already been consumed. The first rune must be a digit.
+// a back-quoted identifier: a doubled back quote stands for one, nothing else is special
+func backtickState(l *sqlLexer) stateFn {
+	for {
+		r, width := utf8.DecodeRuneInString(l.src[l.pos:])
+		l.pos += width
+
+		switch r {
+		case '`':
+			nextRune, width := utf8.DecodeRuneInString(l.src[l.pos:])
+			if nextRune != '`' {
+				return rawState
+			}
+			l.pos += width
+		case utf8.RuneError:
+			if width != replacementcharacterwidth {
+				if l.pos-l.start > 0 {
+					l.parts = append(l.parts, l.src[l.start:l.pos])
+					l.start = l.pos
+				}
+				return nil
+			}
+		}
+	}
+}
+
 func placeholderState(l *sqlLexer) stateFn {
 	num := 0
 
